@@ -9,6 +9,9 @@ var WaitGroupClass *Class // ::Std::Sync::WaitGroup
 
 type WaitGroup struct {
 	Native sync.WaitGroup
+	// a negative counter makes the Go wait group panic, the counter is tracked to throw an elk error instead
+	m       sync.Mutex
+	counter int
 }
 
 func WaitGroupConstructor(class *Class) Value {
@@ -47,22 +50,28 @@ func (w *WaitGroup) InstanceVariables() *InstanceVariables {
 	return nil
 }
 
-func (w *WaitGroup) Add(n int) {
+func (w *WaitGroup) Add(n int) (err Value) {
+	w.m.Lock()
+	defer w.m.Unlock()
+
+	if w.counter+n < 0 {
+		return Ref(NewError(OutOfRangeErrorClass, "the counter of a wait group cannot be negative"))
+	}
+	w.counter += n
 	w.Native.Add(n)
+	return Undefined
 }
 
-func (w *WaitGroup) Remove(n int) {
-	for range n {
-		w.Native.Done()
-	}
+func (w *WaitGroup) Remove(n int) (err Value) {
+	return w.Add(-n)
 }
 
 func (w *WaitGroup) Start() {
-	w.Native.Add(1)
+	w.Add(1)
 }
 
-func (w *WaitGroup) End() {
-	w.Native.Done()
+func (w *WaitGroup) End() (err Value) {
+	return w.Add(-1)
 }
 
 func (w *WaitGroup) Wait() {
